@@ -132,6 +132,11 @@ type SComposite struct {
 	Type  string
 	Elems []SExpr
 }
+type SMethodCall struct {
+	Recv SExpr
+	Name string
+	Args []SExpr
+}
 type SLet struct {
 	Name string
 	Val  SExpr
@@ -522,7 +527,24 @@ func (p *parser) parsePostfix() (SExpr, error) {
 				if id, ok := f.X.(*SIdent); ok {
 					fname = id.Name + "." + f.Sel
 				} else {
-					return nil, p.errf("call of non-function")
+					// method call on an arbitrary receiver expression
+					p.p++
+					var args []SExpr
+					for !p.isOp(")") {
+						a, err := p.parseExpr()
+						if err != nil {
+							return nil, err
+						}
+						args = append(args, a)
+						if p.isOp(",") {
+							p.p++
+						} else if !p.isOp(")") {
+							return nil, p.errf("expected , or )")
+						}
+					}
+					p.p++
+					x = &SMethodCall{f.X, f.Sel, args}
+					continue
 				}
 			default:
 				return nil, p.errf("call of non-function")
@@ -589,6 +611,8 @@ type FuncContract struct {
 	Ensures    []Clause
 	Assigns    []AssignLoc
 	HasAssigns bool
+	Reads      []AssignLoc
+	HasReads   bool
 	Pure       bool
 	Trusted    bool // contract assumed for the body (not verified) — listed in evidence
 	Loops      map[int]*LoopSpec
@@ -636,7 +660,7 @@ type SpecFile struct {
 }
 
 var directiveKw = map[string]bool{
-	"func": true, "extern": true, "interface": true, "requires": true, "ensures": true, "assigns": true,
+	"func": true, "extern": true, "interface": true, "requires": true, "ensures": true, "assigns": true, "reads": true,
 	"loop": true, "pure": true, "trusted": true, "spec": true, "pred": true, "uninterp": true, "ghost": true,
 	"lemma": true, "axiom": true, "props": true, "nopanic": true,
 }
@@ -780,11 +804,15 @@ func parseSpecFile(path string, pkgName string) (*SpecFile, error) {
 			} else {
 				cur.Ensures = append(cur.Ensures, cl)
 			}
-		case "assigns":
+		case "assigns", "reads":
 			if cur == nil {
-				return nil, p.errf("assigns outside func")
+				return nil, p.errf("%s outside func", kw)
 			}
-			cur.HasAssigns = true
+			if kw == "assigns" {
+				cur.HasAssigns = true
+			} else {
+				cur.HasReads = true
+			}
 			if p.isId("nothing") {
 				break
 			}
@@ -799,7 +827,11 @@ func parseSpecFile(path string, pkgName string) (*SpecFile, error) {
 					txt = append(txt, t.v)
 				}
 				e.Text = strings.Join(txt, "")
-				cur.Assigns = append(cur.Assigns, e)
+				if kw == "assigns" {
+					cur.Assigns = append(cur.Assigns, e)
+				} else {
+					cur.Reads = append(cur.Reads, e)
+				}
 				if p.isOp(",") {
 					p.p++
 				}
